@@ -60,6 +60,26 @@ CHECKS = {
    note="Trusted: overlay instrumentation; settling time 2 intervals + 2 time-outs + 5 ms; no task stalls injected; Monitor.Close is not treated as unreachability because established connections stay served.",
    technique="deterministic simulation: seeded event orders, schedules and network phases over the overlay-instrumented failure detector and net/rpc; time-indexed completeness/accuracy oracles on every probe read; shrunk replay files",
    ref="6 (C19)"),
+ "C15": dict(
+   text="The real generated AServer/AClient archetypes of systems/locksvc run on the real distsys core in the level-A spec world (the spec's global variables and its ReliableLink mapping macro implemented to the letter; the fairness-counter seam is the gate, so one critical section = one atomic step and every either/with is a stream decision), for 1-8 clients, every interleaving of client and server labels and every delivery order of the bag network (or per-mailbox arrival order) drawn from the stream. After every committed step: at most one hasLock, one client between critical section and unlock, grants only to the head of the server's queue, only to a client with an outstanding request, in the order lock requests reached the server; no spec assertion fails; every client finishes.",
+   note="Trusted: level-A environment stubs (verif/env, verif/envsys) implement the macros faithfully (cross-checked by C02 against TLC); atomicity of sections is by construction at this level (C01 covers the runtime).",
+   technique="deterministic simulation at spec-step granularity: seeded label interleavings and message choices over the real generated archetypes; invariant oracles after every step; shrunk replay files",
+   ref="6 (C15)"),
+ "C02": dict(
+   text="For each wired spec/Go pair (see DESIGN.md for the list actually wired; currently locksvc and raftkvs) the real generated archetypes run in the level-A spec world under seeded schedules and choices; after every committed step the full spec state under the PlusCal translation's variable names (pc, every archetype local, every global) is recorded, and TLC evaluates the specification's own Init on the first state and Next (or stuttering) on every consecutive pair, reading the .tla from /repo at check time. A committed Go step that is not a step of the spec, or an initial state that is not Init, is a violation; Go assertion failures and panics are violations too.",
+   note="Trusted: TLC as evaluator of the spec's Next; the independent TLA+ value printer; hand-written binding tables from spec variables to Go state (a missing binding stops the check with exit 2). Only wired pairs are claimed; steps the spec enables but Go refuses are not detected by this oracle.",
+   technique="deterministic simulation + refinement check of the recorded history: seeded spec-level schedules over the real generated code, TLC evaluating the spec's next-state relation on every recorded state pair",
+   ref="6 (C02)"),
+ "C08": dict(
+   text="All archetypes of the generated Raft KV store (five per server, clients, the spec's crashers) run on the real runtime in the level-A spec world for 1-5 servers and 1-3 clients: per-link FIFO delivery with any interleaving of links, bounded buffers, every election/client time-out and failure-detector answer a biased stream coin, crash-stop of a minority at label boundaries, per-server speed classes redrawn in phases. After every committed step the spec's ElectionSafety, LogMatching, LeaderCompleteness, StateMachineSafety, ApplyLogOK and LeaderAppendOnly (transcribed to Go) are evaluated, plus monotone terms/commit indices and no failed assertion.",
+   note="Trusted: invariants transcribed from raftkvs.tla; level-A environment (macros to the letter); level B (bootstrap over simulated TCP) not included yet.",
+   technique="deterministic simulation at spec-step granularity: seeded interleavings, time-outs, failure-detector answers and crashes over the real generated Raft archetypes; invariant oracles after every step; shrunk replay files",
+   ref="6 (C08)"),
+ "C09": dict(
+   text="Same level-A Raft execution as C08 with 1-3 concurrent clients issuing Puts with unique values and Gets; the history (invoke/return stamped with event sequence numbers, unanswered Puts pending for ever) is checked with porcupine against a key-value map, outside the simulation. One recorded known finding: a Put re-sent after a client time-out is appended and applied twice (no de-duplication in spec or Go); histories in which no Put was re-sent are judged strictly.",
+   note="Trusted: porcupine; history stamps taken at the commit of the client's clientLoop/rcvResp labels; level B not included yet.",
+   technique="deterministic simulation + linearizability check (porcupine) of the recorded client history",
+   ref="6 (C09)"),
 }
 PENDING = "check not built yet in this session (planned, see DESIGN.md section 6); not claimed until its harness passes the determinism self-test"
 
